@@ -28,9 +28,50 @@ PID = "C12"
 TITLE = "Histogram and graph arithmetic, scaling and conversions keep every cell"
 LEAN_MODULES = ["LenaModel.Props.C12"]
 LEAN_SOURCES = ["LenaModel/Model/NArr.lean", "LenaModel/Model/C12.lean", "LenaModel/Lemmas/C12.lean",
+                "LenaModel/Lemmas/C12Hist.lean", "LenaModel/Lemmas/C12Graph.lean", "LenaModel/Lemmas/C12Csv.lean",
                 "LenaModel/Props/C12.lean"]
 DRIVER = "drivers/C12.lean"
 THEOREMS = [
+    "Lena.C12.hist_scale",
+    "Lena.C12.hist_scale_recomputed",
+    "Lena.C12.hist_scale_zero",
+    "Lena.C12.hist_scale_total",
+    "Lena.C12.set_nevents_spec",
+    "Lena.C12.set_nevents_zero",
+    "Lena.C12.set_nevents_total",
+    "Lena.C12.get_nevents_spec",
+    "Lena.C12.add_cellwise",
+    "Lena.C12.add_cell",
+    "Lena.C12.add_rejects_nbins",
+    "Lena.C12.add_rejects_edges",
+    "Lena.C12.add_only_equal_edges",
+    "Lena.C12.iter_bins_with_edges_agrees",
+    "Lena.C12.iter_cells_agrees",
+    "Lena.C12.iterators_agree",
+    "Lena.C12.iter_cells_ranges",
+    "Lena.C12.iter_cells_bad_range",
+    "Lena.C12.graph_scale_unknown_or_zero",
+    "Lena.C12.graph_scale",
+    "Lena.C12.hist_to_graph_points",
+    "Lena.C12.hist_to_graph_bad_mode",
+    "Lena.C12.getCoord_spec",
+    "Lena.C12.csv_rows_1d",
+    "Lena.C12.csv_rows_2d",
+    "Lena.C12.csv_rows_2d_count",
+    "Lena.C12.csv_not_converted",
+    "Lena.C12.csv_dim3_unchanged",
+    "Lena.C12.csv_graph_rows",
+    "Lena.C12.scale_to_call_spec",
+    "Lena.C12.scale_to_call_errors",
+    "Lena.C12.scale_loop_spec",
+    "Lena.C12.scale_to_number",
+    "Lena.C12.scale_to_selector",
+    "Lena.C12.mkHist_wf",
+    "Lena.C12.add_defined",
+    "Lena.C12.graph_valid_naming",
+    "Lena.C12.hist_to_graph_defined",
+    "Lena.C12.csv_one_row_per_cell_1d",
+    "Lena.C12.csv_one_row_per_cell_2d",
 ]
 TRUSTED = [
     "Lean 4.33.0 kernel; axioms limited to propext, Classical.choice, Quot.sound (audited by #print axioms on every run)",
@@ -144,6 +185,11 @@ def build_hist(hc):
     kind, ekind = hc.get("kind", "float"), hc.get("ekind", "float")
     e = hc["edges"]
     edges = [pynum(x, ekind) for x in e["f"]] if "f" in e else [[pynum(x, ekind) for x in ax] for ax in e["n"]]
+    econt = hc.get("econt", "list")
+    if econt == "tuple":            # edges as (nested) tuples
+        edges = tuple(edges) if "f" in e else tuple(tuple(ax) for ax in edges)
+    elif econt == "tuple_axes" and "n" in e:     # a list of tuples
+        edges = [tuple(ax) for ax in edges]
     h = lena.structures.histogram(edges, bins=py_nested(hc["bins"], kind))
     h.n_out_of_range = pynum(hc["nout"], kind)
     if hc.get("scale") is not None:
@@ -322,6 +368,11 @@ def gen_hist(rng, shape, kind=None, pattern=None, ekind=None):
     hc = {"edges": {"f": axes[0]} if len(shape) == 1 else {"n": axes}, "bins": gen_bins(rng, shape, kind, pattern),
           "nout": enc(F(rng.randint(0, 4)) if kind == "int" or rng.random() < 0.5 else F(rng.randint(0, 12), 4)),
           "scale": None, "kind": kind, "ekind": ekind}
+    r = rng.random()
+    if r < 0.12:
+        hc["econt"] = "tuple"
+    elif r < 0.18:
+        hc["econt"] = "tuple_axes"
     return hc
 
 
@@ -350,6 +401,13 @@ def hscale_case(rng, hc, exact):
             # a target that is not a float (1/3, 7/10): the real code gets the nearest float, the oracle its exact value
             c["other"] = enc(float(q(c["other"])))
     return c
+
+
+def scale_get_case(rng, hc):
+    """scale(recompute) of a histogram whose scale was or was not computed before (possibly stale)"""
+    I = ref_integral(hc)
+    cached = rng.choice([None, enc(I), enc(I + 1), enc(I * 2 + F(1, 2)), "0"])
+    return {"op": "scale_get", "h": dict(hc, scale=cached), "recompute": rng.random() < 0.5}
 
 
 def nevents_case(rng, hc, exact):
@@ -418,8 +476,8 @@ def iter_case(rng, shape):
     elif r < 0.75:
         ranges = []
         for n in dims:
-            lo = rng.choice([None, 0, rng.randint(0, n)])
-            up = rng.choice([None, n, rng.randint(0, n), rng.randint(0, n)])
+            lo = rng.choice([None, 0, 0, rng.randint(0, n)])
+            up = rng.choice([None, n, n, rng.randint(0, n), rng.randint(min(n, (lo or 0) + 1), n)])
             ranges.append([lo, up])
     elif r < 0.85:
         ranges = [[rng.choice([None, -1, 0, 1]), rng.choice([None, n, n + 1, -1])] for n in dims]
@@ -478,6 +536,16 @@ def all_namings():
             for errs in itertools.permutations(pool, k):
                 out.append(coords + list(errs))
     return out
+
+
+def tricky_naming(rng):
+    """field names whose coordinates are prefixes of each other (valid or not)"""
+    coords = rng.choice([["E", "time", "E_kin"], ["a", "ab", "a_b"], ["x", "x_1"], ["x", "xy", "x_y"], ["p", "pT"],
+                         ["error", "err"], ["y", "y_"]])
+    coords = coords[:rng.randint(1, len(coords))]
+    pool = [f"error_{c}{suf}" for c in coords for suf in ("", "_low", "_high", "_1", "_")]
+    k = rng.randint(0, 3)
+    return coords + rng.sample(pool, k)
 
 
 BAD_NAMINGS = [
@@ -609,12 +677,13 @@ def gen_cases(ctx):
     rng = ctx.rng
     thorough = ctx.tier == "thorough"
     cases = []
-    per_shape = 12 if thorough else 2
+    per_shape = 60 if thorough else 6
     for rep in range(per_shape):
         for shape in SHAPES:
             hc = gen_hist(rng, shape)
             cases.append(hscale_case(rng, hc, True))
             cases.append(hscale_case(rng, gen_hist(rng, shape), rep % 2 == 0))
+            cases.append(scale_get_case(rng, gen_hist(rng, shape)))
             cases.append(nevents_case(rng, gen_hist(rng, shape), True))
             cases.append(nevents_case(rng, gen_hist(rng, shape), rep % 2 == 0))
             cases.append(add_case(rng, shape))
@@ -626,7 +695,9 @@ def gen_cases(ctx):
             cases.append(csv_case(rng, shape))
             if len(shape) <= 2:
                 cases.append(csv_case(rng, shape))
-    for _ in range(20 if thorough else 4):
+                cases.append(csv_case(rng, shape))
+                cases.append(csv_case(rng, shape))
+    for _ in range(200 if thorough else 10):
         cases.append(hscale_case(rng, zero_integral_hist(rng), True))
         cases.append(hscale_case(rng, gen_hist(rng, rng.choice(SHAPES), pattern="zero"), True))
         cases.append(nevents_case(rng, gen_hist(rng, rng.choice(SHAPES), pattern="zero"), True))
@@ -641,10 +712,12 @@ def gen_cases(ctx):
     for names in BAD_NAMINGS:
         for form in ("t", "s"):
             cases.append(graph_case(rng, names, form=form))
-    for _ in range(6000 if thorough else 300):
+    for _ in range(40000 if thorough else 800):
         names = rng.choice(all_namings_cached())
         cases.append(graph_case(rng, names))
-    for _ in range(400 if thorough else 40):
+    for _ in range(30000 if thorough else 800):
+        cases.append(graph_case(rng, tricky_naming(rng)))
+    for _ in range(3000 if thorough else 80):
         # wrong number of names, unequal lengths, no coords
         c = graph_case(rng, rng.choice([["x", "y"], ["x", "y", "error_y"]]))
         r = rng.random()
@@ -657,20 +730,20 @@ def gen_cases(ctx):
         else:
             c["g"]["names"] = None
         cases.append(c)
-    for _ in range(3000 if thorough else 150):
+    for _ in range(15000 if thorough else 300):
         names = rng.choice(all_namings_cached())
         g = graph_case(rng, names)["g"]
         cases.append({"op": "csv_graph", "g": g, "to_csv": rng.random() > 0.1, "header": rng.choice([None, "", "a b"]),
                       "sep": rng.choice([",", ";", " "]), "row_end": rng.choice(["", " \\\\"]),
                       "last_row_end": rng.choice(["", "\n"])})
-    for _ in range(8000 if thorough else 400):
+    for _ in range(60000 if thorough else 1200):
         cases.append(scale_to_case(rng))
-    for _ in range(2000 if thorough else 120):
+    for _ in range(15000 if thorough else 300):
         cases.append(scale_to_call_case(rng))
-    for _ in range(3000 if thorough else 150):
+    for _ in range(15000 if thorough else 300):
         cases.append(mk_hist_case(rng))
     if thorough:
-        for _ in range(15000):
+        for _ in range(150000):
             shape = rng.choice(SHAPES)
             k = rng.randrange(6)
             if k == 0:
@@ -788,6 +861,14 @@ def run_impl(case):
             except Exception as ex:
                 res["recomputed"] = _exc(ex)
         return res
+
+    if op == "scale_get":
+        h = build_hist(case["h"])
+        try:
+            r = h.scale(recompute=case["recompute"])
+        except Exception as ex:
+            return _exc(ex)
+        return {"r": enc(r), "after": hist_state(h), "again": enc(h.scale())}
 
     if op == "nevents":
         h = build_hist(case["h"])
@@ -1013,6 +1094,8 @@ def model_requests(case):
         if not case["exact"]:
             return [{"op": "hist_scale", "h": model_hist(case["h"]), "recompute": False}]
         return [{"op": "hscale", "h": model_hist(case["h"]), "other": case["other"]}]
+    if op == "scale_get":
+        return [{"op": "hist_scale", "h": model_hist(case["h"]), "recompute": case["recompute"]}]
     if op == "nevents":
         return [{"op": "nevents", "h": model_hist(case["h"]), "n": case["n"] if case["exact"] else None,
                  "incl": case["incl"]}]
@@ -1086,6 +1169,11 @@ def compare(case, res, replies):
         return (diff("state after scale(other)", norm_hist(res["after"]), norm_hist(m["after"])) or
                 diff("scale() afterwards", _nq(res["get"]), _nq(m["get"])) or
                 diff("scale(recompute=True)", _nq(res["recomputed"]), _nq(m["recomputed"])))
+    if op == "scale_get":
+        if "e" in res or "e" in m:
+            return diff("exception", res.get("e"), m.get("e"))
+        return diff("scale()", _nq(res["r"]), _nq(m["r"])) or \
+            diff("state after scale()", norm_hist(res["after"]), norm_hist(m["h"]))
     if op == "nevents":
         d = diff("get_nevents()", _nq(res["nev_in"]), _nq(m["nev_in"])) or \
             diff("get_nevents(True)", _nq(res["nev_all"]), _nq(m["nev_all"]))
@@ -1235,6 +1323,20 @@ def oracle(case, res):
         if not _num_ok(exact, res["recomputed"], s, mag):
             return f"recomputed scale after scale({s}) is {res['recomputed']}"
         return None
+
+    if op == "scale_get":
+        hc = case["h"]
+        if "e" in res:
+            return f"scale() raised {res['e']}"
+        want = ref_integral(hc) if (case["recompute"] or hc["scale"] is None) else q(hc["scale"])
+        if not _num_ok(True, res["r"], want):
+            return (f"scale(recompute={case['recompute']}) of a histogram with integral {ref_integral(hc)} and stored "
+                    f"scale {hc['scale']} returned {res['r']}")
+        if not _num_ok(True, res["again"], want) or not _num_ok(True, res["after"]["scale"], want):
+            return f"the scale is not stored for subsequent use: {res['again']}, {res['after']['scale']}"
+        a, b = norm_hist(res["after"]), norm_hist(model_hist(hc))
+        a.pop("scale"), b.pop("scale")
+        return None if a == b else "scale() changed the histogram"
 
     if op == "nevents":
         hc, exact, incl = case["h"], case["exact"], case["incl"]
@@ -1582,7 +1684,7 @@ def nontrivial(case, res):
     if isinstance(res, dict) and ("e" in res and res["e"]):
         return True
     op = case["op"]
-    if op in ("hscale", "nevents", "iter", "h2g", "csv"):
+    if op in ("hscale", "nevents", "iter", "h2g", "csv", "scale_get"):
         return len(list(flat_nested(case["h"]["bins"]))) >= 2 and not res.get("unchanged", False)
     if op == "add":
         return len(list(flat_nested(case["a"]["bins"]))) >= 2
@@ -1602,25 +1704,32 @@ def classify(case, res):
     e = res.get("e") if isinstance(res, dict) else None
     if e:
         out.append(f"{op}:raises:{e}")
-    if op in ("hscale", "nevents", "iter", "h2g", "csv"):
-        out.append(f"{op}:dim={len(shape_of(case['h']))}:{case['h'].get('kind')}")
+    hc = case.get("h") or case.get("a")
+    if isinstance(hc, dict) and "bins" in hc:
+        out.append(f"hist:dim={len(shape_of(hc))}")
+        out.append(f"hist:contents={hc.get('kind')}")
+        out.append(f"hist:edges={hc.get('econt', 'list')}")
     if op in ("hscale", "nevents"):
         out.append(f"{op}:{'exact' if case['exact'] else 'rounded'}")
     if op == "add":
-        out.append(f"add:{case['rel']}:w={'1' if case['w'] == '1' else 'other'}:{'ok' if 'h' in res else res.get('e')}")
+        out.append(f"add:{case['rel']}:{'ok' if 'h' in res else res.get('e')}")
+        out.append("add:w=1" if case["w"] == "1" else "add:w!=1")
     if op == "iter":
         rg = case["ranges"]
         out.append("iter:ranges=" + ("none" if not rg else "given") + ":" +
                    ("error" if isinstance(res["cells"], dict) else ("empty" if not res["cells"] else "cells")))
     if op == "h2g":
-        out.append(f"h2g:{case['mode']}:mv={case['mv']}:scale={'num' if isinstance(case['scale'], str) else case['scale']}")
+        out.append(f"h2g:{case['mode']}")
+        out.append(f"h2g:make_value={case['mv']}")
+        out.append(f"h2g:scale={'num' if isinstance(case['scale'], str) else case['scale']}")
     if op == "graph" and "g" in res:
-        out.append(f"graph:dim={res['g']['dim']}:errors={len(res['g']['parsed'])}:" +
-                   ("rescaled" if "e" not in res["scaled"] else res["scaled"]["e"]))
+        out.append(f"graph:dim={res['g']['dim']}:errors={len(res['g']['parsed'])}")
+        out.append("graph:" + ("rescaled" if "e" not in res["scaled"] else "scale raises " + res["scaled"]["e"]))
     if op == "csv":
-        out.append("csv:" + ("unchanged" if res.get("unchanged") else f"dup={case['dup']}/{case['ctx_dup']}"))
+        out.append("csv:" + ("unchanged" if res.get("unchanged") else f"dup={case['dup']}/ctx={case['ctx_dup']}"))
     if op == "scale_to":
-        out.append(f"scale_to:target={'num' if case['target'] not in ('hist', 'graph') else case['target']}:n={len(case['group'])}:{res['e']}")
+        out.append(f"scale_to:target={'num' if case['target'] not in ('hist', 'graph') else case['target']}:{res['e']}")
+        out.append(f"scale_to:n={len(case['group'])}")
     return out
 
 
